@@ -447,6 +447,29 @@ def evaluate(case):
                     for an, av in vars(cls).items():
                         if hasattr(av, "_subfields") and hasattr(av, "_alias"):
                             snap[f"{cname}.{an}"] = (av._alias, len(av._subfields), sorted(av._inline_fragments), sorted(av.formatted_variables))
+            # anything else of the package that can carry state from one operation to the next: module-level and class-level containers,
+            # memoisation caches, counters, and what the client object holds
+            for mname_, m_ in mods.items():
+                for an, av in list(vars(m_).items()):
+                    if an.startswith("__"):
+                        continue
+                    if isinstance(av, (dict, list, set)) and an != "__all__":
+                        snap[f"module:{mname_}.{an}"] = repr(av)[:1500]
+                    elif isinstance(av, (int, float)) and not isinstance(av, bool):
+                        snap[f"module:{mname_}.{an}"] = av
+                    elif hasattr(av, "cache_info"):
+                        snap[f"cache:{mname_}.{an}"] = av.cache_info().currsize
+                    elif isinstance(av, type) and getattr(av, "__module__", None) == m_.__name__:
+                        for cn, cv in list(vars(av).items()):
+                            if cn.startswith("__"):
+                                continue
+                            if isinstance(cv, (dict, list, set)) or (isinstance(cv, (int, float)) and not isinstance(cv, bool)):
+                                snap[f"class:{mname_}.{an}.{cn}"] = repr(cv)[:1500]
+                            elif hasattr(getattr(cv, "__func__", cv), "cache_info"):
+                                snap[f"cache:{mname_}.{an}.{cn}"] = getattr(cv, "__func__", cv).cache_info().currsize
+            for an, av in vars(c).items():
+                if isinstance(av, (dict, list, set, str, int, float, type(None))):
+                    snap[f"client.{an}"] = repr(av)[:500]
             return snap
         for h in case.get("history") or []:
             send(h[0], h[1])
@@ -474,6 +497,13 @@ HISTORY_MENU = [
     ("query", [("Query.node(id='n').fields(NodeInterface.id)", 'node(id: "n") { id }', set())]),
     ("query", [("Query.search(text='s').on('User', UserFields.id.alias('z'))", 'search(text: "s") { ... on User { z: id } }', set())]),
     ("query", [("Query.search(text='s').on('User', UserFields.id, UserFields.user_name)", 'search(text: "s") { ... on User { id userName } }', set())]),
+    # the same members with other argument sets / values / operation type (memoisation by name would show here)
+    ("query", [("Query.find(first=10).fields(UserFields.id)", "find(first: 10) { id }", set())]),
+    ("query", [("Query.find(kind=Kind.A, first=5, after='c').fields(UserFields.id)", 'find(kind: A, first: 5, after: "c") { id }', set())]),
+    ("query", [("Query.user_by_id(user_id='3').fields(UserFields.id)", 'userById(userId: "3") { id }', set())]),
+    ("mutation", [("Mutation.rename_user(user_id='1', new_name='n').fields(UserFields.id)", 'renameUser(userId: "1", newName: "n") { id }', set())]),
+    ("mutation", [("Mutation.update_post(id='p1', title='t').fields(PostFields.id)", 'updatePost(id: "p1", title: "t") { id }', set())]),
+    ("query", [("Query.team().fields(TeamFields.posts(first=3).fields(PostFields.id))", "team { posts(first: 3) { id } }", set())]),
 ]
 
 
@@ -517,6 +547,7 @@ def main(tier):
                 rep.violation(clause, feats, detail, dict(desc, sent=res["doc"]))
     # ---- histories: explicit-state BFS, states = snapshot of the shared class-level field objects
     depth = 2 if tier == "quick" else 3
+    full_depth = 2   # every history of length < full_depth is expanded whatever state it leads to; beyond, states are de-duplicated by the snapshot
     base_st, base = pool.run_forked(evaluate, dict(options={}, ops=HISTORY_MENU, history=[], check_documents=False))
     # the fresh document of each menu entry must itself come from a fresh process
     fresh_cases = [dict(options={}, ops=[e], history=[], check_documents=False) for e in HISTORY_MENU]
@@ -534,10 +565,11 @@ def main(tier):
                 rep.violation("harness_history", [], str(r)[:300], {"history": h})
                 continue
             key = json.dumps(r["state"], sort_keys=True)
-            if key in seen_states:
-                continue
-            seen_states[key] = h
-            states += 1
+            if key in seen_states and len(h) >= full_depth:
+                continue   # (histories shorter than full_depth are all expanded: no reliance on the state abstraction there)
+            if key not in seen_states:
+                seen_states[key] = h
+                states += 1
             # NOTE: the ops of the menu are evaluated one after another in this state; only the FIRST evaluation happens exactly in state(h).
             # Every menu entry is therefore evaluated as the first op of its own run:
             for i, e in enumerate(HISTORY_MENU):
